@@ -229,7 +229,7 @@ def precnut(vc):
     vc.ensure("O-C04-precnut.composition", vc.eq(o.rot_pn, expect))
 
 
-@obligation("C04", "rotr", ensures=["O-C04-rotr.def"], fns=[RD + "getRotR"], mode="R",
+@obligation("C04", "rotr", ensures=["O-C04-rotr.def"], fns=[RD + "getRotR"], mode="R", xcheck=150,
             note="PEF->TOD rotation is rot3(-GAST) with GAST evaluated at (year, dayOfYear(...)-1 incl. dUT1, eq. equinox)")
 def rotr(vc):
     import datetime
@@ -242,7 +242,24 @@ def rotr(vc):
         dut1, eqe = vc.real("dut1", -0.9, 0.9), vc.real("eqe", -1e-4, 1e-4)
         el = dayOfYear(d.year, d.month, d.day, d.hour, d.minute, d.second + d.microsecond / 1e6 + dut1) - 1
         want = rot3(-1.0 * greenwichApparentTime(d.year, el, eqe))
-        vc.ensure("O-C04-rotr.def", bool(np.allclose(getRotR(d, dut1, eqe), want, atol=1e-13, rtol=0)))
+        ok = bool(np.allclose(getRotR(d, dut1, eqe), want, atol=1e-13, rtol=0))
+        # continuity across calendar boundaries with the dUT1 sign that puts UT1 and UTC on different sides of them: over a short interval the
+        # rotation advances by the Earth rate x interval (no jump at minute, day, month, leap-day or year ends)
+        kind = vc.int("boundary", 0, 5)
+        yr = vc.int("year", 2014, 2021)
+        edge = [datetime.datetime(yr + 1, 1, 1), datetime.datetime(yr, 3, 1), datetime.datetime(2016, 2, 29), datetime.datetime(yr, 7, 1),
+                datetime.datetime(yr, 5, 17), datetime.datetime(yr, 5, 17, 8, 31)][kind]
+        off = vc.real("offset_s", -1.5, 1.5)
+        t1 = edge + datetime.timedelta(seconds=off)
+        gap = vc.real("gap_s", 0.01, 2.0)
+        t2 = t1 + datetime.timedelta(seconds=gap)
+        gap = (t2 - t1).total_seconds()
+        for du in (dut1, -dut1):
+            Ra, Rb = getRotR(t1, du, eqe), getRotR(t2, du, eqe)
+            dR = Rb @ Ra.T  # = rot3(-(theta2 - theta1))
+            ang = np.arctan2(dR[1, 0], dR[0, 0])  # rot3(-a)[1,0] = sin(a): rotation by the angle the Earth turned
+            ok = ok and abs(ang - 7.2921158553e-5 * gap) < 2e-7
+        vc.ensure("O-C04-rotr.def", ok)
         return
     vc.stub(MA + "rot3", rot_stub(3))
     calls = {}
